@@ -30,6 +30,7 @@ ASSUMPTIONS = [
     'CG bound calibrated at design time on 294 random SPD systems (largest observed ratios 0.43 and 0.27)',
     'lazy inverses only on uniform-dtype structures (lineax rejects mixed-dtype pytrees)',
     'HWPOperator.I is not generated: it is symmetric but indefinite and has no closed form in the library',
+    'float32 data: the solver tolerance is never tighter than 1e-5 (the library default of 1e-6 is at round-off level there and is replaced by an explicit CG(1e-5, 1e-5, 200))',
 ]
 
 
@@ -119,8 +120,28 @@ def nonsquare_case(draw, mode):
     return {'form': 'nonsquare', 'defs': G.defs, 'expr': r, 'probe': [0] * 8}
 
 
+@st.composite
+def scaled_spd_case(draw, mode):
+    """k * A, A * k, A / k for an SPD operator A without closed form, then the lazy inverse."""
+    n = draw(st.integers(2, 6))
+    dt = draw(st.sampled_from(gen.dtypes(mode)))
+    G = gen.GenCtx(mode, cap=12)
+    S = St.leaf([n], dt)
+    A = gen.g_dense(draw, G, S, square=True, spd=True)
+    A['vdtype'] = 'float32'
+    form = draw(st.sampled_from(['k*A', 'A*k', 'A/k']))
+    ty = draw(st.sampled_from(['py_float', 'py_int', 'np_f32', 'jax_0d', 'jax_0d_weak']))
+    v = draw(st.sampled_from([2.0, 0.5, 3.0, 4.0]))
+    if ty == 'py_int':
+        v = int(v) or 2
+    r = {'k': 'scale', 'op': A, 'value': v, 'ty': ty, 'form': form}
+    return {'form': 'spd', 'defs': G.defs, 'expr': r, 'sub': 'scaled', 'solver': None,
+            'probe': draw(st.lists(st.integers(0, 1000), min_size=8, max_size=8))}
+
+
 def strategy(tier, mode):
-    return st.one_of(closed_case(mode), closed_case(mode), spd_case(mode), spd_case(mode), nonsquare_case(mode))
+    return st.one_of(closed_case(mode), closed_case(mode), spd_case(mode), spd_case(mode), nonsquare_case(mode),
+                     scaled_spd_case(mode))
 
 
 def _contains_move(r, defs):
@@ -206,12 +227,19 @@ def check(recipe, mode):
     if kappa > (1e2 if f32 else 1e3):
         raise Skip()
     sv = recipe['solver']
+    if sv is None and f32:
+        # the library default (rtol = atol = 1e-6, 500 steps) is at the float32 round-off level: CG stagnates and may
+        # even diverge there; outside the calibrated domain (rtol >= 1e-5 in float32), so a reachable tolerance is configured
+        sv = {'rtol': 1e-5, 'atol': 1e-5, 'max_steps': 200}
     cfg = {'solver_callback': ops._quiet_cb}
     rtol, atol = 1e-6, 1e-6
     if sv is not None:
         rtol, atol = sv['rtol'], sv['atol']
-        if f32 and rtol < 1e-5:
-            rtol = 1e-5
+        if f32:
+            # lineax' CG stops on an ELEMENT-WISE criterion |dz_i| < atol + rtol |z_i|: in float32 a tolerance below the
+            # round-off noise (~1e-7 kappa) on a solution component near zero is never met and the iteration then runs
+            # to max_steps, where it can diverge; the calibrated float32 domain is rtol, atol >= 1e-5
+            rtol, atol = max(rtol, 1e-5), max(atol, 1e-5)
         cfg['solver'] = lx.CG(rtol=rtol, atol=atol, max_steps=sv['max_steps'])
     elif f32:
         # the library default (rtol=atol=1e-6) is at the float32 round-off level: judge with the achievable bound
@@ -228,11 +256,18 @@ def check(recipe, mode):
     if not St.same_structure(den.out_S, inv.in_structure()) or not St.same_structure(den.in_S, inv.out_structure()):
         raise Violation('I-structure', 'structures of the lazy inverse are not the swapped ones')
     Minv = np.linalg.inv(M)
+    weak64 = (mode == 'x64' and recipe['sub'] == 'scaled' and any(dt_ == 'float32' for _, dt_ in St.leaves(den.in_S))
+              and _has_weak64_scalar(inv.operator))
     for t in range(2):
         y = np.array([((p[(i + t) % 8] * (t + 2) + 3 * i) % 11) - 5 for i in range(n)], dtype=float)
         if not y.any():
             y[0] = 1.0
-        z, _ = must_not_raise('I-mv', ops.apply_flat, inv, den.out_S, y)
+        try:
+            z, _ = must_not_raise('I-mv', ops.apply_flat, inv, den.out_S, y)
+        except Violation as v:
+            if weak64 and 'structures do not match' in v.detail:
+                raise Violation('lazy-inverse/x64/weak-float64-scalar-factor-on-float32', v.detail)
+            raise
         if not np.all(np.isfinite(z)):
             raise Violation('cg-not-finite', 'NaN/Inf in A.I(y)')
         ny = float(np.linalg.norm(y))
@@ -274,4 +309,23 @@ def _has_zero_diag(r, defs):
         return bool((np.asarray(r['vals'], dtype=float) == 0).any())
     if k == 'block':
         return any(_has_zero_diag(b, defs) for b in ops._block_leaves(r['blocks']))
+    return False
+
+
+def _has_weak64_scalar(op) -> bool:
+    """Does the operand of a lazy inverse contain a scalar factor stored as a weakly typed float64 array?"""
+    import jax
+
+    from furax._base.core import AbstractLinearOperator, HomothetyOperator
+
+    if isinstance(op, HomothetyOperator):
+        v = op.value
+        return isinstance(v, jax.Array) and str(v.dtype) == 'float64' and bool(getattr(v, 'weak_type', False))
+    for name in ('operands', 'blocks', 'operator'):
+        sub = getattr(op, name, None)
+        if sub is None:
+            continue
+        for o in jax.tree.leaves(sub, is_leaf=lambda z: isinstance(z, AbstractLinearOperator)):
+            if isinstance(o, AbstractLinearOperator) and _has_weak64_scalar(o):
+                return True
     return False
